@@ -504,6 +504,19 @@ func crlFaultHandler(kind string, issuer *Cert) rtHandler {
 		}
 	case "302":
 		return func(*http.Request) (*http.Response, error) { return httpBody(302, nil) }
+	case "delta-nonhttp", "delta-unreachable", "delta-ext-malformed":
+		// a genuine, current base CRL that does not list the certificate but advertises a delta CRL which cannot
+		// be obtained: only locations with a scheme other than http / a location that answers 404 / an extension
+		// that does not parse.  The fetcher must fail, so the point is a download fault.
+		raw := cdpExtValue([][]string{{"ldap://dir.test/cn=delta", "https://crl.test/delta.crl"}})
+		switch kind {
+		case "delta-unreachable":
+			raw = cdpExtValue([][]string{{"http://crl.test/no-such-delta.crl"}})
+		case "delta-ext-malformed":
+			raw = []byte{0x30, 0x05, 0x30, 0x03, 0xA0, 0x01, 0xA1}
+		}
+		der := buildCRL(crlSpec{Number: 5, Next: "+1h", Signer: "issuer", FreshestRaw: raw}, issuer, big.NewInt(1))
+		return func(*http.Request) (*http.Response, error) { return httpBody(200, der) }
 	}
 	return func(*http.Request) (*http.Response, error) { return httpBody(503, nil) }
 }
